@@ -211,10 +211,25 @@ func runC04R3(c *Ctx, r *Rep) {
 }
 
 func runC04R4(c *Ctx, r *Rep) {
-	fd := c.FuncDeclX("vm", "EvalCode")
+	fd := c.FuncDecl("vm", "EvalCode")
 	if fd == nil || fd.Body == nil {
 		r.undecided("kwsearch|vm.EvalCode", token.NoPos, "anchor function not found")
 		return
+	}
+	vmp := c.MustPkg("vm")
+	fd, alias := c.ExpandAlias(vmp, fd)
+	// an identifier, by the variable of EvalCode it stands for (a parameter of a put-back helper is the argument)
+	nameOf := func(e ast.Expr) string {
+		id := identOf(e)
+		if id == nil {
+			return exprStr(e)
+		}
+		if o := vmp.TypesInfo.Uses[id]; o != nil {
+			if a := alias(o); a != nil {
+				return a.Name()
+			}
+		}
+		return id.Name
 	}
 	r.analysed("vm.EvalCode")
 	// the loop over the keyword arguments
@@ -240,7 +255,7 @@ func runC04R4(c *Ctx, r *Rep) {
 		case *ast.ForStmt:
 			cmp := false
 			ast.Inspect(loop.Body, func(m ast.Node) bool {
-				if be, ok := m.(*ast.BinaryExpr); ok && be.Op == token.EQL && (exprStr(be.Y) == kwVar || exprStr(be.X) == kwVar) && strings.Contains(exprStr(be), "Varnames") {
+				if be, ok := m.(*ast.BinaryExpr); ok && be.Op == token.EQL && (nameOf(be.Y) == kwVar || nameOf(be.X) == kwVar) && strings.Contains(exprStr(be), "Varnames") {
 					cmp = true
 				}
 				return true
@@ -251,7 +266,7 @@ func runC04R4(c *Ctx, r *Rep) {
 			n++
 			bound := ""
 			if be, ok := loop.Cond.(*ast.BinaryExpr); ok && be.Op == token.LSS {
-				bound = exprStr(be.Y)
+				bound = nameOf(be.Y)
 			}
 			r.check(bound == "total_args", "kwsearch|bounded by total_args", loop.Pos(),
 				"the search for the keyword among the parameter names stops at total_args",
@@ -262,7 +277,7 @@ func runC04R4(c *Ctx, r *Rep) {
 			}
 			cmp := false
 			ast.Inspect(loop.Body, func(m ast.Node) bool {
-				if be, ok := m.(*ast.BinaryExpr); ok && be.Op == token.EQL && (exprStr(be.Y) == kwVar || exprStr(be.X) == kwVar) {
+				if be, ok := m.(*ast.BinaryExpr); ok && be.Op == token.EQL && (nameOf(be.Y) == kwVar || nameOf(be.X) == kwVar) {
 					cmp = true
 				}
 				return true
